@@ -1,9 +1,132 @@
-import Oracle.Proto
-namespace Oracle.C12
+/-
+  Oracle.C12 — expected results for the C12 harness lines.
 
-/-- placeholder: the oracle driver for C12 is not built yet -/
+    exp <tree> <tokens> = <impl>     tree: prefix code, each node preceded by one `'` per redundant
+                                     parenthesis pair; tokens: what the harness rendered.
+                                     → `render-mismatch` if Spec.Grammar.render tree ps ≠ tokens,
+                                       else the prefix code of Model.ParseExp.parse tokens (or `none`)
+    toks <tokens> = <impl>           → prefix code of Model.ParseExp.parse tokens (or `none`)
+    short s<hex literal> = <impl>    → s<hex of Model.Literal.decodeShort> or E
+    long s<hex literal> = <impl>     → s<hex of Model.Literal.decodeLong> or E
+    esc <q> s<hex bytes> <forms> = <impl>  → literal text Spec.Literal.escape produces (the harness
+                                     feeds exactly that text to golua), `|`, and its decoding
+
+  Codes: atoms a..h; binary O A L M G H E N P X B S R C D U T V W Q Y
+  (or and < <= > >= == ~= | ~ & << >> .. + - * / // % ^); unary 1 2 3 4 (- not # ~);
+  tokens: atoms, `(`, `)`, the binary codes (U = `-`, X = `~`), 2 = not, 3 = #.
+-/
+import Oracle.Proto
+import GoluaVerif.Model.ParseExp
+import GoluaVerif.Spec.Literal
+namespace Oracle.C12
+open GoluaVerif.Spec.Grammar GoluaVerif.Model GoluaVerif.Spec.Literal GoluaVerif.Model.Literal
+
+def binCodes : List (Char × BinOp) :=
+  [('O', .or), ('A', .and), ('L', .lt), ('M', .le), ('G', .gt), ('H', .ge), ('E', .eq), ('N', .ne),
+   ('P', .bor), ('X', .bxor), ('B', .band), ('S', .shl), ('R', .shr), ('C', .concat), ('D', .add),
+   ('U', .sub), ('T', .mul), ('V', .div), ('W', .idiv), ('Q', .mod), ('Y', .pow)]
+def unCodes : List (Char × UnOp) := [('1', .neg), ('2', .not), ('3', .len), ('4', .bnot)]
+
+def binOfChar (c : Char) : Option BinOp := (binCodes.find? (·.1 == c)).map (·.2)
+def charOfBin (o : BinOp) : Char := ((binCodes.find? (·.2 == o)).map (·.1)).getD '?'
+def unOfChar (c : Char) : Option UnOp := (unCodes.find? (·.1 == c)).map (·.2)
+def charOfUn (o : UnOp) : Char := ((unCodes.find? (·.2 == o)).map (·.1)).getD '?'
+
+def showExp : Exp → String
+  | .atom n => String.singleton (Char.ofNat ('a'.toNat + n))
+  | .un u e => String.singleton (charOfUn u) ++ showExp e
+  | .bin o l r => String.singleton (charOfBin o) ++ showExp l ++ showExp r
+
+/-- parse the annotated prefix code: returns tree, redundant-paren table (path ↦ count), rest -/
+partial def readTree (cs : List Char) (path : List Nat) : Option (Exp × List (List Nat × Nat) × List Char) :=
+  let rec marks (cs : List Char) (k : Nat) : Nat × List Char :=
+    match cs with
+    | '\'' :: r => marks r (k + 1)
+    | _ => (k, cs)
+  let (k, cs) := marks cs 0
+  let here := if k = 0 then [] else [(path, k)]
+  match cs with
+  | c :: r =>
+    if 'a' ≤ c ∧ c ≤ 'h' then some (.atom (c.toNat - 'a'.toNat), here, r)
+    else match unOfChar c with
+      | some u => match readTree r (path ++ [0]) with
+        | some (e, t, r') => some (.un u e, here ++ t, r')
+        | none => none
+      | none => match binOfChar c with
+        | some o => match readTree r (path ++ [0]) with
+          | some (l, t1, r1) => match readTree r1 (path ++ [1]) with
+            | some (rr, t2, r2) => some (.bin o l rr, here ++ t1 ++ t2, r2)
+            | none => none
+          | none => none
+        | none => none
+  | [] => none
+
+def tokOfChar (c : Char) : Option Token :=
+  if 'a' ≤ c ∧ c ≤ 'h' then some (.atom (c.toNat - 'a'.toNat))
+  else if c == '(' then some .lp else if c == ')' then some .rp
+  else if c == '2' then some (.sym .not) else if c == '3' then some (.sym .hash)
+  else (binOfChar c).map fun o => .sym o.sym
+
+def readToks (s : String) : Option (List Token) := s.toList.mapM tokOfChar
+
+def parseShow (ts : List Token) : String :=
+  match ParseExp.parse ts with
+  | some e => showExp e
+  | none => "none"
+
+def bytesOut (o : Option (List UInt8)) : String :=
+  match o with
+  | some b => "s" ++ hexOfBytes (ByteArray.mk (List.toArray b))
+  | none => "E"
+
+/-- forms: one letter per byte: r raw, n named, d dec3, m decMin, x hex lower, X hex upper,
+    u \u{..}, v \u{000..}, l/c/k/j newline lf/cr/crlf/lfcr; upper-case Z before a letter = `\z` + " \n\t" -/
+def readForms (cs : List Char) : List Choice :=
+  match cs with
+  | 'Z' :: c :: r => { (readForms [c]).headD { form := .dec3 } with zskip := some [32, 10, 9] } :: readForms r
+  | c :: r =>
+    let f : Form := match c with
+      | 'r' => .raw | 'n' => .named | 'd' => .dec3 | 'm' => .decMin | 'x' => .hex false | 'X' => .hex true
+      | 'u' => .uni 0 | 'v' => .uni 3 | 'l' => .nl .lf | 'c' => .nl .cr | 'k' => .nl .crlf | 'j' => .nl .lfcr
+      | _ => .dec3
+    { form := f } :: readForms r
+  | [] => []
+
+def handle (line : String) : String :=
+  match line.splitOn " " with
+  | ["exp", tree, toks, "=", _] =>
+    match readTree tree.toList [], readToks toks with
+    | some (e, table, []), some ts =>
+      let ps : Parens := fun p => ((table.find? (·.1 == p)).map (·.2)).getD 0
+      if render e ps == ts then parseShow ts else "render-mismatch"
+    | _, _ => "bad-line"
+  | ["toks", toks, "=", _] =>
+    match readToks toks with
+    | some ts => parseShow ts
+    | none => "bad-line"
+  | ["short", lit, "=", _] =>
+    match V.parse lit with
+    | some (.str s) => bytesOut (decodeShort s.toList)
+    | _ => "bad-line"
+  | ["long", lit, "=", _] =>
+    match V.parse lit with
+    | some (.str s) => bytesOut (decodeLong s.toList)
+    | _ => "bad-line"
+  | ["esc", q, bs, forms] =>
+    match V.parse bs with
+    | some (.str s) =>
+      let fs := readForms forms.toList
+      let ch : Nat → Choice := fun i => fs.getD i { form := .dec3 }
+      let qb : UInt8 := if q == "'" then 39 else 34
+      let lit := escape qb s.toList ch
+      "s" ++ hexOfBytes (ByteArray.mk (List.toArray lit)) ++ " " ++ bytesOut (decodeShort lit)
+    | _ => "bad-line"
+  | _ => "bad-line"
+
 def main (_args : List String) : IO UInt32 := do
-  IO.eprintln "oracle mode c12: not built"
-  return 2
+  let stdin ← IO.getStdin
+  let stdout ← IO.getStdout
+  forEachLine stdin fun line => stdout.putStrLn (handle line)
+  return 0
 
 end Oracle.C12
